@@ -160,9 +160,15 @@ def check(prop, tier, seed):
                     prog.append(["join"])
                 elif x < 0.90:
                     prog.append(["pjoin"])
-                elif x < 0.97:
+                elif x < 0.94:
                     tag += 1
                     prog.append(["lazy", t * 100000 + tag])
+                elif x < 0.955:
+                    prog.append(["lazyins", rng.randint(1, 4), t * 100000 + tag + 1])
+                    tag += 5
+                elif x < 0.97:
+                    tag += 1
+                    prog.append(["lazycreate", t * 100000 + tag])
                 else:
                     # a chain of lazy actions, each queuing the next from inside maintain
                     d = rng.choice([1, 3, 9, 12, 20])
@@ -184,8 +190,14 @@ def check(prop, tier, seed):
                         prog.append(["delown"])
                     elif x < 0.85:
                         prog.append(["delete", rng.randint(1, nalive + nfree + 6)])
-                    elif x < 0.92:
+                    elif x < 0.90:
                         prog.append(["join"])
+                    elif x < 0.93:
+                        prog.append(["lazyins", rng.randint(1, 3), 900000 + tag + 1])
+                        tag += 4
+                    elif x < 0.96:
+                        tag += 1
+                        prog.append(["lazycreate", 900000 + tag])
                     else:
                         tag += 1
                         prog.append(["lazy", 900000 + tag])
